@@ -14,6 +14,7 @@ type Contract struct {
 	Options  map[string]bool
 	Props    []string
 	AtEvals  []*AtEval
+	Lemmas   []*Lemma
 }
 
 type Clause struct {
@@ -34,4 +35,14 @@ func (e *Exec) contractOf(fn *ssa.Function) *Contract {
 		return nil
 	}
 	return e.Opt.Contracts.ByFunc[FuncName(fn)]
+}
+
+// Lemma: a state-independent obligation attached to a function block (byte
+// class tables, constant relations). Each: one obligation per value of Var in [Lo, Hi].
+type Lemma struct {
+	Label  string
+	Var    string
+	Lo, Hi int
+	Expr   Expr
+	Text   string
 }
